@@ -124,7 +124,8 @@ def run(ctx, run):
         else:
             run.holds("RF-PURE", key, "%d functions, no store to static storage%s" % (n, " other than the CRC table" if allowed else ""),
                       unit, nontrivial=False)
-
+    from .. import sweep
+    sweep.run(ctx, run, [IDL, PFC], {}, 15)
 
 def _need(run, f, call, key, what, preds, ats):
     missing = [n for n, p in preds if not any(p(a) for a in ats)]
